@@ -296,8 +296,60 @@ def runVqClones (pairs : Nat) : String :=
       let cross := (got.filter fun e => expectCancelled.contains e).length
       s!"dup_ids={dupIds} lost={lost} cross_cancel={cross}"
 
+/-- `vq backlog <kind> <n>`: a long backlog of timer commands (n create/cancel pairs or n far timers)
+between two receive calls; times in ms.  The model folds *all* queued commands on every receive. -/
+def runVqBacklog (kind : String) (n : Nat) : String :=
+  open Mio.EvQ in
+  let far := 3600000
+  let pairs (q : Q Nat) : Q Nat := (List.range n).foldl (fun q i =>
+    let (k, q) := sendTimer q 0 far (1000 + i)
+    cancelTimer q k) q
+  let fars (q : Q Nat) : Q Nat := (List.range n).foldl (fun q i => (sendTimer q 0 far (1000 + i)).2) q
+  let tries (now : Nat) (m : Nat) (q : Q Nat) : List String := ((List.range m).foldl (fun (acc : List String × Q Nat) _ =>
+    let (r, q') := tryReceive now acc.2
+    (acc.1 ++ [showRes r], q')) ([], q)).1
+  let rts (now : Nat) (m : Nat) (q : Q Nat) : List String := ((List.range m).foldl (fun (acc : List String × Q Nat) _ =>
+    let (r, _, q') := receiveTimeout now 0 acc.2
+    (acc.1 ++ [showRes r], q')) ([], q)).1
+  let q0 : Q Nat := {}
+  let out : Option (List String) :=
+    if kind = "A" then
+      let q := (sendTimer q0 0 20 1).2
+      let q := pairs q
+      let q := (sendTimer q 0 1 2).2
+      some (tries 60 3 q)
+    else if kind = "B" then
+      let q := pairs q0
+      let q := (sendTimer q 0 1 2).2
+      some (tries 30 2 q)
+    else if kind = "C" then
+      let q := pairs q0
+      let q := (sendTimer q 0 1 2).2
+      let q := send q 3
+      some (tries 30 3 q)
+    else if kind = "D" then
+      let (k, q) := sendTimer q0 0 50 1
+      let q := fars q
+      let q := cancelTimer q k
+      let (r1, q) := tryReceive 150 q
+      let (r2, _, _) := receiveTimeout 150 100 q
+      some [showRes r1, showRes r2]
+    else if kind = "E" then
+      let q := pairs q0
+      let q := (sendTimer q 0 1 2).2
+      let q := sendPrio q 4
+      let q := send q 3
+      some (rts 30 4 q)
+    else none
+  match out with
+  | some l => "[" ++ ",".intercalate l ++ "]"
+  | none => "bad-case"
+
 def runVq2 (ws : List String) : String :=
   match ws with
+  | ["backlog", k, n] => match n.toNat? with
+    | some n => if n ≤ 100000 then runVqBacklog k n else "bad-case"
+    | none => "bad-case"
   | ["clones", p] => match p.toNat? with
     | some p => runVqClones p
     | none => "bad-case"
